@@ -64,7 +64,7 @@ class Ctx:
         self.replies: List[tuple] = []  # (sid, kind, k, value) of every delivered reply
         self.ncall = 0
         self.world = None
-        self.max_requests = 2000
+        self.max_requests = 800  # (a run of the families needs well under 200 requests; more is reported as livelock)
         self.has_out = set()
         self.internal: Optional[list] = None  # filled by harness.internal when enabled
         self.last_reply: Dict[tuple, Any] = {}
@@ -402,11 +402,11 @@ def build_world(ctx: Ctx, loop, world_kw=None, connect_order=None):
 
 
 class Hang(BaseException):
-    """The code under test computed for longer than the watchdog allows without returning to the event loop
-    (an execution normally takes milliseconds): a non-terminating loop in mosaik, reported as outcome "hang"."""
+    """The code under test used more CPU time than the watchdog allows (an execution normally takes milliseconds):
+    a non-terminating loop in mosaik, reported as outcome "hang"."""
 
 
-EXEC_LIMIT = float(os.environ.get("VERIF_EXEC_LIMIT", "20"))  # seconds of wall-clock per execution (build + run)
+EXEC_LIMIT = float(os.environ.get("VERIF_EXEC_LIMIT", "30"))  # seconds of CPU time per execution (build + run)
 
 
 class _Watchdog:
@@ -419,16 +419,17 @@ class _Watchdog:
             def fire(signum, frame):
                 raise Hang(f"no result within {EXEC_LIMIT:.0f} s")
 
-            self.old = signal.signal(signal.SIGALRM, fire)
-            signal.setitimer(signal.ITIMER_REAL, EXEC_LIMIT)
+            # CPU time of this process (ITIMER_PROF), not wall-clock time: a loaded machine must not look like a hang
+            self.old = signal.signal(signal.SIGPROF, fire)
+            signal.setitimer(signal.ITIMER_PROF, EXEC_LIMIT)
         return self
 
     def __exit__(self, *a):
         import signal
 
         if self.on:
-            signal.setitimer(signal.ITIMER_REAL, 0)
-            signal.signal(signal.SIGALRM, self.old)
+            signal.setitimer(signal.ITIMER_PROF, 0)
+            signal.signal(signal.SIGPROF, self.old)
         return False
 
 
